@@ -201,7 +201,12 @@ def rand_valid(rng, n, kind=None):
 
 def rand_values(rng, shape, dtype="float", mag=None):
     if mag is None:
-        mag = 10.0 ** rng.uniform(-3, 3)
+        # SI-scale magnitudes: 30 % tiny (1e-12..1e-6: nm lengths, pJ energies - below numpy's
+        # default absolute tolerance 1e-8, a recurring hazard in this code base), 50 %
+        # moderate, 20 % large (1e4..1e9: A/m magnetisations)
+        r = rng.random()
+        lo, hi = (-12, -6) if r < 0.3 else ((-3, 3) if r < 0.8 else (4, 9))
+        mag = 10.0 ** rng.uniform(lo, hi)
     if dtype == "int":
         return rng.integers(-50, 50, shape)
     if dtype == "complex":
